@@ -39,6 +39,14 @@ def _signed(y_true, y_pred):
     return float(np.mean(np.asarray(y_true, dtype=float) - np.asarray(y_pred, dtype=float)))
 
 
+def _nanflat(y_true, y_pred):
+    # undefined (nan) for a flat multi-step forecast, like a correlation; a loss otherwise
+    yp = np.asarray(y_pred, dtype=float)
+    if len(yp) >= 2 and np.ptp(yp) == 0:
+        return float("nan")
+    return float(np.mean(np.abs(np.asarray(y_true, dtype=float) - yp)))
+
+
 def _ratio(y_true, y_pred):
     # asymmetric in its arguments and direction-free
     return float(np.sum(np.asarray(y_pred, dtype=float)) / (1.0 + np.sum(np.abs(np.asarray(y_true, dtype=float)))))
@@ -55,6 +63,8 @@ def build_metric(name):
         return make_forecasting_scorer(_signed, name="signed")
     if name == "ratio":
         return make_forecasting_scorer(_ratio, name="ratio", greater_is_better=True)
+    if name == "nanflat":
+        return make_forecasting_scorer(_nanflat, name="nanflat")
     raise ValueError(name)
 
 
@@ -75,6 +85,8 @@ def raw_metric(name):
         return _signed
     if name == "ratio":
         return _ratio
+    if name == "nanflat":
+        return _nanflat
     raise ValueError(name)
 
 
